@@ -148,6 +148,21 @@ def run(ctx):
     if B["traces"] > 0:
         ctx.validate_trace("LookupdInputTrace", "LookupdInputTrace.cfg", trace, B["traces"], "lookupd-input", timeout=1800)
 
+    # 5. the same oracles while many clients talk to the daemon at once
+    rep3 = os.path.join(ctx.scratch, "storm.json")
+    rc, out, err = ctx.run_harness(["c15-storm", "--bin", lookupd, "--seed", ctx.seed, "--report", rep3,
+                                    "--dur", "4s" if quick else "30s"], timeout=900, name="lookupd")
+    if os.path.exists(rep3):
+        S = json.load(open(rep3))
+        if not S.get("inconclusive"):
+            ctx.cov["evaluations"] += S["evaluations"]
+            ctx.notes["concurrent_storm_steps"] = S["evaluations"]
+            inconclusive += report_findings(ctx, S, "concurrent storm")
+        else:
+            inconclusive.append("storm: " + S["inconclusive"])
+    else:
+        inconclusive.append("storm: no report (%s)" % (out + err)[-300:])
+
     for dev in leads:
         leads[dev]["reproduced_on_real_daemon_this_run"] = any(k.strip() in _reported for k in leads[dev]["replay_keys"].split("/"))
     ctx.cov["distinct_nontrivial"] = len(distinct)
